@@ -511,9 +511,11 @@ impl<'de> serde::Deserializer<'de> for &'de Value {
     where
         V: Visitor<'de>,
     {
-        match self.as_ref() {
-            ValueRef::Null => visitor.visit_none(),
-            _ => visitor.visit_some(self),
+        // (`as_ref` shows a raw number beyond the range of f64 as `Null`: ask for null directly)
+        if crate::JsonValueTrait::is_null(self) {
+            visitor.visit_none()
+        } else {
+            visitor.visit_some(self)
         }
     }
 
